@@ -237,6 +237,7 @@ package message
 
 //@ type handler
 //@   self h
+//@   setonce started
 //@   ownschan startedCh(Router.handlersLock), stopped
 
 //@ spec routerBuilt(r *Router) bool := r != nil && r.handlersLock != nil && r.handlersWg != nil && r.runningHandlersWg != nil && r.runningHandlersWgLock != nil && r.middlewaresLock != nil && r.handlerAdded != nil && r.closingInProgressCh != nil && r.closedCh != nil && r.running != nil
